@@ -3,7 +3,8 @@ import re
 
 from lib import coq_term_str as S, coq_list as L, coq_nat as N
 
-THEOREMS = ['C19_write_tokens_yield', 'C19_recons_token_sound', 'C19_recons_token_roundtrip_partial', 'C19_recons_token_roundtrip',
+THEOREMS = ['C19_earley_matches_supported', 'C19_M_earley_sound', 'C19_M_earley_ok', 'C19_M_earley_complete',
+            'C19_recons_token_roundtrip_earley_partial', 'C19_write_tokens_yield', 'C19_recons_token_sound', 'C19_recons_token_roundtrip_partial', 'C19_recons_token_roundtrip',
             'C19_match_exists', 'C19_matcher_accepts', 'C19_text', 'C19_H_relex_refuted', 'C19_example']
 GEN_DEPS = []
 RULE = ('seeded random grammars of the supported class (statement / expression / list / program skeletons and prefix-guarded '
@@ -206,6 +207,35 @@ def class_coq(rules):
     return True
 
 
+def plain_roots(rules):
+    """mirror of ReconsCheck.plain_roots_b: no name that owns root rules (rules_for_root) is an inlined non-terminal
+    of the tree-matching grammar.  Under it EVERY Earley match of a parser tree is a supported one
+    (C19_earley_matches_supported), so the round trip does not depend on how lark resolves the matching ambiguity."""
+    names = {r['origin'] for r in rules}
+    exp1 = {r['origin'] for r in rules if r['expand1']}
+    aliased = {r['origin'] for r in rules if r['alias'] is not None}
+
+    def is_nt(n):
+        return n in names and (n.startswith('_') or n in exp1 or n in aliased)
+
+    def rsym(s):
+        return (s[0], True) if s[1] or not is_nt(s[0]) else (s[0], False)
+    for r in rules:
+        kept = [rsym(s) for s in kept_syms(r)]
+        if r['alias'] is None and kept == [(r['origin'], False)]:
+            continue                                   # skipped self-recursive unit rule
+        sym = r['alias'] or r['origin']
+        if sym in exp1 and len(kept) != 1:
+            root = True
+        elif sym.startswith('_') or sym in exp1:
+            root = False
+        else:
+            root = True
+        if root and is_nt(sym):
+            return False
+    return True
+
+
 def class_extra(rules, lits):
     """the remaining conditions of the supported class that are decidable on the compiled rules:
     filtered terminals are string literals, every alternative keeps a symbol other than the rule itself,
@@ -357,7 +387,7 @@ def c_citems(nm, items, kids):
     return L(out)
 
 
-def c_case(rules, lits, d_rules, d_rfr, in_class, need_sup, runs):
+def c_case(rules, lits, d_rules, d_rfr, in_class, need_sup, runs, plain=None):
     nm = Names()
     # number every name first so that the per-name table of rules_for_root is complete
     for r in rules:
@@ -390,8 +420,10 @@ def c_case(rules, lits, d_rules, d_rfr, in_class, need_sup, runs):
     # names are complete now (trees only use rule/alias/terminal names, but be safe: number then emit)
     efr = L([L([c_rrule(nm, r) for r in d_rfr.get(n, [])]) for n in list(nm.lst)])
     names = L([S(n) for n in nm.lst])
-    return '(mkCase %s %s %s %s %s %s %s %s)' % (names, P, lit, er, efr, 'true' if in_class else 'false',
-                                                 'true' if need_sup else 'false', runs_t)
+    if plain is None:
+        plain = plain_roots(rules)
+    return '(mkCase %s %s %s %s %s %s %s %s %s)' % (names, P, lit, er, efr, 'true' if in_class else 'false',
+                                                    'true' if need_sup else 'false', 'true' if plain else 'false', runs_t)
 
 
 # ----------------------------------------------------------------------------------------------------
@@ -961,6 +993,7 @@ def build_case(ctx, rng, gtext, nsent, stream, wide=False, fixed_inputs=None, ki
     d_rules = final_rules
     res['unambiguous'] = unamb
     res['in_class'] = in_class
+    res['plain_roots'] = plain_roots(rules)
     res['meta'] = dict(grammar=gtext, parser=kind0, inputs=[tx for tx, _ in res.get('inputs', [])],
                        rules=len(rules), derived=len(d_rules), rules_mutated=res.get('rules_mutated'))
     try:
@@ -1101,6 +1134,9 @@ def correspond(ctx):
         if not r.get('inputs'):
             continue
         accepted += 1
+        ctx.histo.setdefault('plain_roots(all Earley matches supported)', {})
+        hk = ctx.histo['plain_roots(all Earley matches supported)']
+        hk[str(r.get('plain_roots'))] = hk.get(str(r.get('plain_roots')), 0) + 1
         for v in r['viol']:
             ctx.violation('roundtrip-oracle', v, True, v['detail'])
         for hd in r.get('history_dep', [])[:1]:
